@@ -42,6 +42,21 @@ pub struct Searcher {
     timer: SearchTimer,
     repetition: RepetitionTable,
     history: HistoryTable,
+    /// Verification hook: counters and event logs (off in normal builds)
+    #[cfg(flounder_verif)]
+    pub verif: VerifSearch,
+}
+
+/// Verification hook state
+#[cfg(flounder_verif)]
+#[derive(Default)]
+pub struct VerifSearch {
+    /// negamax returned a cached result whose depth was greater than requested
+    pub tt_returned_deeper: u64,
+    /// negamax returned a cached result of exactly the requested depth
+    pub tt_returned_same: u64,
+    /// when Some: (position, side to move in check, moves examined) of every quiescence node
+    pub qlog: Option<Vec<(Board, bool, Vec<Move>)>>,
 }
 
 impl Searcher {
@@ -56,6 +71,8 @@ impl Searcher {
             timer: SearchTimer::new(),
             repetition: RepetitionTable::new(),
             history: HistoryTable::new(),
+            #[cfg(flounder_verif)]
+            verif: VerifSearch::default(),
         }
     }
 
@@ -164,6 +181,8 @@ impl Searcher {
         if let Some(cached_result) =
             self.probe_transposition_table(board, depth, alpha, beta, &mut context)
         {
+            #[cfg(flounder_verif)]
+            self.verif_note_tt_return(board, depth);
             return cached_result;
         }
 
@@ -245,6 +264,11 @@ impl Searcher {
         } else {
             self.move_generator.generate_quiescence_moves(board)
         };
+
+        #[cfg(flounder_verif)]
+        if let Some(log) = self.verif.qlog.as_mut() {
+            log.push((*board, currently_in_check, moves.clone()));
+        }
 
         self.order_captures(&mut moves, board);
 
@@ -431,6 +455,68 @@ impl Searcher {
     /// Forgets the recorded game history (a new position command replaces it)
     pub fn clear_positions(&mut self) {
         self.repetition.clear();
+    }
+}
+
+/// Verification hooks: read-only observation points and deterministic deadlines.
+/// Compiled only with `--cfg flounder_verif`; nothing here changes a value the
+/// engine computes.
+#[cfg(flounder_verif)]
+#[allow(dead_code)]
+impl Searcher {
+    pub fn verif_timer(&mut self) -> &mut crate::timer::VerifTimer {
+        &mut self.timer.verif
+    }
+
+    pub fn verif_nodes(&self) -> u64 {
+        self.timer.nodes()
+    }
+
+    pub fn verif_polls(&self) -> u64 {
+        self.timer.verif.polls.get()
+    }
+
+    pub fn verif_repetition_len(&self) -> usize {
+        self.repetition.len()
+    }
+
+    pub fn verif_is_repetition_draw(&self, board: &Board) -> bool {
+        self.is_draw_by_repetition(board)
+    }
+
+    pub fn verif_hash(&self, board: &Board) -> u64 {
+        self.zobrist.hash(board)
+    }
+
+    pub fn verif_tt_entries(&self) -> Vec<crate::transposition::Entry> {
+        self.transposition_table.verif_entries()
+    }
+
+    pub fn verif_window() -> (i32, i32) {
+        (NEGATIVE_INFINITY, INFINITY)
+    }
+
+    /// One full-window search at exactly this depth (no iterative deepening)
+    pub fn verif_search_fixed(&mut self, board: &Board, depth: u8) -> (i32, Option<Move>) {
+        self.timer.start(None);
+        let result = self.search_position(board, depth);
+        (result.score, result.best_move)
+    }
+
+    /// The engine's own quiescence search on this position and window
+    pub fn verif_quiesce(&mut self, board: &Board, alpha: i32, beta: i32) -> i32 {
+        self.search_until_quiet(board, alpha, beta)
+    }
+
+    fn verif_note_tt_return(&mut self, board: &Board, depth: u8) {
+        let hash = self.zobrist.hash(board);
+        if let Some(entry) = self.transposition_table.retrieve(hash) {
+            if entry.depth > depth {
+                self.verif.tt_returned_deeper += 1;
+            } else {
+                self.verif.tt_returned_same += 1;
+            }
+        }
     }
 }
 
